@@ -239,6 +239,21 @@ static void do_line (char **w, int n)
     if (l < 0) { puts ("bad-op"); return; }
     reply (sl, pseudo_tcp_socket_notify_packet (sl->sock, (const gchar *) buf, (guint32) l) ? 1 : 0, "-");
     free (buf);
+  } else if (!strcmp (w[1], "pktm") && n == 4) {
+    /* the entry point the agent uses: a 24-byte header buffer and a body buffer.  Both are exact-size heap blocks
+     * (the body block has exactly the received body length), so any read past what was received is reported; the
+     * unused tail of the header block holds stale bytes, as the agent's reused buffer would */
+    uint8_t *buf, *hdr, *body; long l = parse_hex (w[3], &buf); long bl; GInputVector v[2]; NiceInputMessage m;
+    if (l < 0) { puts ("bad-op"); return; }
+    bl = l > 24 ? l - 24 : 0;
+    hdr = malloc (24); memset (hdr, 0xAA, 24); memcpy (hdr, buf, l < 24 ? (size_t) l : 24);
+    body = malloc (bl ? (size_t) bl : 1);
+    if (bl == 0) { free (body); body = malloc (0); }
+    if (bl) memcpy (body, buf + 24, (size_t) bl);
+    v[0].buffer = hdr; v[0].size = 24; v[1].buffer = body; v[1].size = (gsize) bl;
+    m.buffers = v; m.n_buffers = 2; m.from = NULL; m.length = (gsize) l;
+    reply (sl, pseudo_tcp_socket_notify_message (sl->sock, &m) ? 1 : 0, "-");
+    free (buf); free (hdr); free (body);
   } else if (!strcmp (w[1], "pktz") && n == 5) {
     /* the given bytes followed by <n> zero bytes */
     uint8_t *buf, *full; long l = parse_hex (w[3], &buf);
